@@ -163,12 +163,14 @@ def judge(chk, label, lines, zones_wanted, impl_pieces, work, start, until, note
 
 
 # ------------------------------------------------------------------ program generation (small sources over the documented grammar)
-STDOFFS = ['-8:00', '-3:30', '0:00', '5:45', '12:45', '1:00', '5:40', '-3:40']   # the last two are truncated (and noted) in basic scope
+STDOFFS = ['-8:00', '-3:30', '0:00', '5:45', '12:45', '1:00', '5:40', '-3:40',   # the last two of this line are truncated (and noted) in basic scope
+           '-0:37', '5:53']      # a negative offset below one hour; minute remainders of 8 (both need the one-minute resolution of extended scope)
 ATS = ['0:00', '2:00', '2:00s', '1:00u', '24:00', '3:00']
 SAVES = ['0', '1:00', '0:30', '2:00']
 ONS = ['1', '15', 'lastSun', 'Sun>=1', 'Sun>=8', 'Sun>=15', 'lastSat', 'Fri>=22', 'Sat>=1']   # forms zic can also express in its POSIX-TZ footer (needed beyond 2037)
 UNTILS = [['YEAR'], ['YEAR', 'Jan', '1'], ['YEAR', 'Mar', 'lastSun', '2:00'], ['YEAR', 'Oct', 'Sun>=1', '2:00s'], ['YEAR', 'Apr', '1', '1:00u'], ['YEAR', 'Jul', '15', '0:00'],
-          ['YEAR', 'May', '1', '1:00g']]     # g (and z) are zic's other spellings of u
+          ['YEAR', 'May', '1', '1:00g'],     # g (and z) are zic's other spellings of u
+          ['YEAR', 'Jun', 'Mon>=28', '0:00'], ['YEAR', 'Apr', 'Sun>=29', '2:00']]     # weekday expressions that may carry into the next month
 MONTHS = ['Jan', 'Feb', 'Mar', 'Apr', 'May', 'Jun', 'Jul', 'Aug', 'Sep', 'Oct', 'Nov', 'Dec']
 
 
